@@ -22,7 +22,7 @@ RULE = ("Hypothesis trees: depth <= 4 (6 in thorough), fan-out <= 4 (wide trees:
         "makes the trees unequal in both directions; deepcopy, pickle and serialise-and-parse copies are equal both ways and "
         "serialise identically. Non-trivial: >= 3 components and a repeated subcomponent name; distinct by hash.")
 ASSUMPTIONS = ["parameter-only differences are not asserted either way", "generated texts contain no backslash (RC-B would change them on serialise-and-parse; C01/C07 own that)"]
-REQUIRED_CLASSES = ["repeated-sub-name", "unknown-component", "perturb:kind", "perturb:value", "perturb:add-sub", "perturb:remove-sub", "perturb:dup-sub",
+REQUIRED_CLASSES = ["custom-zone", "repeated-sub-name", "unknown-component", "perturb:kind", "perturb:value", "perturb:add-sub", "perturb:remove-sub", "perturb:dup-sub",
                     "perturb:swap-mult", "root:VCALENDAR", "zoned-value"]
 
 
@@ -156,6 +156,8 @@ def perturb(tree, pert):
 def judge(case):
     provider = case.get("provider", "zoneinfo")
     sut.reset(provider)
+    if case.get("kind") == "custom-zone":
+        return judge_custom_zone(case, provider)
     fails = []
     for section in (_traversal, _equality, _non_components, _perturbation, _copies):
         try:
@@ -268,6 +270,57 @@ def _copies(case, provider):
             raise Bad("C20.copies", f"copy-serialises-differently/{label}", f"{wire[:200]!r} vs {cp.to_ical()[:200]!r}")
 
 
+# ----------------------------------------------------------------------------- copies of trees that hold zones built from a VTIMEZONE
+def _us_style():
+    from checks.c09_parse_invariance import _obs
+    return {"c": "VTIMEZONE", "p": [["TZID", {"k": "text", "v": "Custom/US"}]], "s": [
+        _obs("DAYLIGHT", [1987, 4, 5, 2, 0, 0], -18000, -14400, "EDT", {"FREQ": "YEARLY", "BYMONTH": [4], "BYDAY": ["1SU"], "UNTIL": [{"k": "utc", "v": [2006, 4, 2, 7, 0, 0]}]}),
+        _obs("DAYLIGHT", [2007, 3, 11, 2, 0, 0], -18000, -14400, "EDT", {"FREQ": "YEARLY", "BYMONTH": [3], "BYDAY": ["2SU"]}),
+        _obs("STANDARD", [1987, 10, 25, 2, 0, 0], -14400, -18000, "EST", {"FREQ": "YEARLY", "BYMONTH": [10], "BYDAY": ["-1SU"], "UNTIL": [{"k": "utc", "v": [2006, 10, 29, 6, 0, 0]}]}),
+        _obs("STANDARD", [2007, 11, 4, 2, 0, 0], -14400, -18000, "EST", {"FREQ": "YEARLY", "BYMONTH": [11], "BYDAY": ["1SU"]})]}
+
+
+def custom_zone_text(case):
+    from checks.c09_parse_invariance import VTZ
+    from vlib.model import ical_text as M
+    defs = dict(VTZ)
+    defs["Custom/US"] = _us_style()
+    vt = defs[case["zone"]]
+    evs = []
+    for i, w in enumerate(case["walls"]):
+        evs.append({"c": "VEVENT", "p": [["UID", {"k": "text", "v": f"u{i}"}], ["DTSTART", {"k": "naive", "v": w}, {"TZID": case["zone"]}],
+                                         ["EXDATE", {"k": "dates", "v": [{"k": "naive", "v": w}]}, {"TZID": case["zone"]}]], "s": []})
+    tree = {"c": "VCALENDAR", "p": [["VERSION", {"k": "text", "v": "2.0"}]], "s": [vt] + evs}
+    return M.render(tree)
+
+
+def judge_custom_zone(case, provider):
+    fails = []
+    try:
+        a = Calendar.from_ical(custom_zone_text(case))
+    except Exception as e:
+        return [Failure("C20.raises", "custom-zone-parse-raises/" + exc_signature(e), repr(e)[:300])]
+    ea = T.extract(a)
+    wire = a.to_ical()
+    for label, mk in (("deepcopy", lambda: copy.deepcopy(a)), ("pickle", lambda: pickle.loads(pickle.dumps(a))), ("serialise-parse", lambda: Calendar.from_ical(wire))):
+        try:
+            cp = mk()
+        except Exception as e:  # noqa: BLE001
+            fails.append(Failure(f"C20.copies@custom-zone/{provider}", f"copy-raises@custom-zone/{label}/{provider}/" + exc_signature(e), repr(e)[:200]))
+            continue
+        r1, r2 = eq(a, cp), eq(cp, a)
+        if r1 is not True or r2 is not True:
+            fails.append(Failure(f"C20.copies@custom-zone/{provider}", f"copy-unequal@custom-zone/{label}/{provider}", f"{r1!r} {r2!r}"))
+        elif T.extract(cp) != ea:
+            fails.append(Failure(f"C20.copies@custom-zone/{provider}", f"copy-has-other-offsets@custom-zone/{label}/{provider}", _first_diff(a, cp)))
+        try:
+            if cp.to_ical() != wire:
+                fails.append(Failure(f"C20.copies@custom-zone/{provider}", f"copy-serialises-differently@custom-zone/{label}/{provider}", ""))
+        except Exception as e:  # noqa: BLE001
+            fails.append(Failure(f"C20.copies@custom-zone/{provider}", f"copy-to_ical-raises@custom-zone/{label}/{provider}/" + exc_signature(e), repr(e)[:200]))
+    return fails
+
+
 def _first_diff(a, b):
     ea, eb = T.extract(a), T.extract(b)
     if ea == eb:
@@ -291,6 +344,8 @@ def _first_diff(a, b):
 
 
 def info(case):
+    if case.get("kind") == "custom-zone":
+        return {"nontrivial": True, "classes": ["custom-zone", "custom-zone:" + case["zone"]]}
     tree = case["tree"]
     ns = [n for _, n in nodes(tree)]
     classes = ["root:" + tree["c"].upper()] if tree["c"].upper() in ("VCALENDAR", "VEVENT") else []
@@ -306,7 +361,52 @@ def info(case):
     return {"nontrivial": len(ns) >= 3 and rep, "classes": classes}
 
 
-REGIONS = {}
+def _model_of(vt_tree):
+    """C09-style VTIMEZONE tree -> reference-interpreter definition (for the fold predicate)"""
+    import re as _re
+    obs = []
+    for sub in vt_tree["s"]:
+        pr = {p[0]: p[1] for p in sub["p"]}
+        ob = {"kind": sub["c"], "from": pr["TZOFFSETFROM"]["s"], "to": pr["TZOFFSETTO"]["s"], "name": pr["TZNAME"]["v"], "start": pr["DTSTART"]["v"]}
+        if "RDATE" in pr:
+            ob["rdates"] = [d["v"] for d in pr["RDATE"]["v"]]
+        if "RRULE" in pr:
+            r = pr["RRULE"]["v"]
+            m = _re.fullmatch(r"(-?\d+)([A-Z]{2})", r["BYDAY"][0])
+            until = r.get("UNTIL")
+            ob["rrule"] = {"bymonth": r["BYMONTH"][0], "byday": [int(m.group(1)), m.group(2)], "until": until[0]["v"] if until else None, "count": None}
+        obs.append(ob)
+    return {"tzid": "x", "obs": obs}
+
+
+def region_custom_zone_pytz(case):
+    """RC-S: zones built from a VTIMEZONE under pytz cannot be pickled / deep-copied (UnknownTimeZoneError)"""
+    return case.get("kind") == "custom-zone"
+
+
+def region_custom_zone_fold(case):
+    """RC-S: under zoneinfo the zone is a dateutil object; a copied date-time whose wall time is ambiguous (inside a fold of the
+    definition) compares unequal to the original (PEP 495 inter-zone rule).  Region: some wall time of the case lies in a fold."""
+    if case.get("kind") != "custom-zone":
+        return False
+    from datetime import datetime as _dt, timedelta as _td
+    from checks.c09_parse_invariance import VTZ
+    from vlib.model import vtz as Z
+    defs = dict(VTZ)
+    defs["Custom/US"] = _us_style()
+    m = _model_of(defs[case["zone"]])
+    for ob in m["obs"]:
+        d = ob["from"] - ob["to"]
+        if d <= 0:
+            continue
+        for t in Z.local_onsets(ob):
+            for w in case["walls"]:
+                if t - _td(seconds=d) <= _dt(*w) < t:
+                    return True
+    return False
+
+
+REGIONS = {"custom-zone-pytz": region_custom_zone_pytz, "custom-zone-fold": region_custom_zone_fold}
 
 
 def _no_tzid_in_vtimezone(tree):
@@ -331,9 +431,17 @@ def _hyp(depth, fanout=4):
     return mk
 
 
+def _custom_zone_cases():
+    wall = st.tuples(st.integers(1990, 2030), st.integers(1, 12), st.integers(1, 28), st.integers(0, 23), st.sampled_from([0, 30]), st.just(0)).map(list)
+    edge = st.sampled_from([[2005, 7, 1, 12, 0, 0], [2010, 11, 3, 12, 0, 0], [2006, 10, 29, 1, 30, 0], [2021, 10, 31, 2, 30, 0], [2021, 3, 28, 2, 30, 0], [2010, 3, 14, 2, 30, 0]])
+    return st.fixed_dictionaries({"kind": st.just("custom-zone"), "provider": st.sampled_from(["zoneinfo", "pytz"]),
+                                  "zone": st.sampled_from(["Custom/EU", "Custom/Fixed", "Custom/RD", "Custom/US"]),
+                                  "walls": st.lists(st.one_of(wall, edge), min_size=1, max_size=4)})
+
+
 def streams(tier):
     n = 250 if tier == "quick" else 5000
-    return [Stream("trees-wide", "hyp", n // 2, 4, _hyp(1, 12)), Stream("trees-shallow", "hyp", n, 8, _hyp(2)), Stream("trees-deep", "hyp", n, 8, _hyp(4 if tier == "quick" else 6))]
+    return [Stream("custom-zone-copies", "hyp", n // 2, 4, _custom_zone_cases), Stream("trees-wide", "hyp", n // 2, 4, _hyp(1, 12)), Stream("trees-shallow", "hyp", n, 8, _hyp(2)), Stream("trees-deep", "hyp", n, 8, _hyp(4 if tier == "quick" else 6))]
 
 
 LEVEL_TEXT = ("Random trees are built through the API; traversal is compared with the construction order, and equality with a set of "
